@@ -1,9 +1,10 @@
+import json
 # C11 — Execution is deterministic.
 import os
 from vlib import core, semprop, proggen
 from vlib.semgen import *
 
-HARNESS = "sem"
+HARNESS = ["sem", "c15"]
 CLAIM = dict(
     text=("Theorems (coq/props/C11.v): the evaluator model is a function of program, inputs and fuel; equality of dictionaries "
           "(为 / 不为 / == / 包含 / 寻找) is invariant under every permutation of either operand's entries (contents only, "
@@ -91,7 +92,76 @@ def json_determinism(chk, n, replay=None):
                           {"kind": "json", "document": d, "program": JSON_PROG, "outcomes": distinct[:4], "replay_cmd": "./check C11 --replay <this file>"})
 
 
+def modules_determinism(chk, n, replay=None):
+    """programs made of several module files (whole and selective imports, a module imported again after other imports,
+    methods that use their home module), each executed six times in one process: one outcome.  No model is involved."""
+    import copy
+    import shutil
+    import tempfile
+    from props import c15
+    rng = chk.rng
+    cases = []
+    if replay is not None:
+        cases = [replay["case"]]
+    else:
+        kinds = {}
+        while len(cases) < n:
+            c = c15.random_case(rng, kinds)
+            if rng.random() < 0.6:
+                # import one of the modules once more, after the other imports of the file
+                fs = [f for f in c["files"].values() if [i for i in f["imports"] if not i["name"].startswith("@")]]
+                if fs:
+                    f = rng.choice(fs)
+                    first = [i for i in f["imports"] if not i["name"].startswith("@")][0]
+                    again = copy.deepcopy(first)
+                    if rng.random() < 0.4:
+                        again["items"] = []
+                    f["imports"].append(again)
+            cases.append(c)
+        # a module imported as a whole, another one (several methods that call each other) imported as a whole, the first one
+        # imported again (as a whole or by name), then every imported method called: whatever the re-import does (in this tree:
+        # error 43), it does the same on every run
+        for _ in range(max(10, n // 3)):
+            mk = [0]
+
+            def mark():
+                mk[0] += 1
+                return ["mark", mk[0]]
+            na, nb = rng.randrange(1, 3), rng.randrange(2, 5)
+            fa = ["法甲%d" % i for i in range(na)]
+            fb = ["法乙%d" % i for i in range(nb)]
+            defs_a = [{"fun": f, "body": [mark()] + ([["call", fa[-1]]] if f != fa[-1] else [])} for f in fa]
+            defs_b = [{"fun": f, "body": [mark()] + ([["call", fb[-1]]] if f != fb[-1] else [])} for f in fb]
+            again = {"name": "模甲", "items": [] if rng.random() < 0.5 else [fa[0]]}
+            main = {"imports": [{"name": "模甲", "items": []}, {"name": "模乙", "items": []}, again], "defs": [],
+                    "body": [mark()] + [["call", f] for f in rng.sample(fb, len(fb))] + [["call", fa[0]], mark()]}
+            cases.append({"kind": "reimport", "root": "", "main": "主.zn",
+                          "files": {"主.zn": main, "模甲.zn": {"imports": [], "defs": defs_a, "body": [mark()]},
+                                    "模乙.zn": {"imports": [], "defs": defs_b, "body": [mark()]}}, "edges": []})
+    tmproot = tempfile.mkdtemp(prefix="znc11_")
+    try:
+        for c in cases:
+            inp = c15.harness_input(c, tmproot)
+            outs = core.harness("c15", "run", [inp] * 6, timeout_ms=30000)
+            chk.count(["modules", c["main"], {k: c15.render_source(v) for k, v in c["files"].items()}])
+            chk.dist("modules-determinism")
+            obs = [json.dumps(c15.impl_obs(o), ensure_ascii=False) for o in outs]
+            if len(set(obs)) > 1:
+                chk.violation("the same set of module files gave %d different outcomes in 6 runs: %s; files %s"
+                              % (len(set(obs)), sorted(set(obs))[:3],
+                                 json.dumps({k: c15.render_source(v) for k, v in c["files"].items()}, ensure_ascii=False)[:400]),
+                              "modules:nondeterministic", {"kind": "modules", "case": c, "outcomes": sorted(set(obs))[:4],
+                                                           "replay_cmd": "./check C11 --replay <this file>"})
+    finally:
+        shutil.rmtree(tmproot, ignore_errors=True)
+
+
 def run(chk, replay=None):
+    if replay is not None and replay.get("kind") == "modules":
+        modules_determinism(chk, 0, replay)
+        return
+    if replay is None:
+        modules_determinism(chk, 60 if chk.tier == "quick" else 800)
     if replay is not None and replay.get("kind") == "json":
         json_determinism(chk, 0, replay)
         return
